@@ -9,13 +9,6 @@
 */
 
 #include <math.h>
-#ifdef _MSC_VER
-    #include <malloc.h>
-    #define ALLOCA(sz) _alloca(sz)
-#else
-    #include <alloca.h>
-    #define ALLOCA(sz) alloca(sz)
-#endif
 
 // mutual_info ================================================================
 
@@ -195,15 +188,15 @@ void _mutual_information(float *anomaly, int n_samples,
 
 
 void _spearman_corr(int m, int tmax, signed char *final_mask,
-    float *time_series_ranked, float *spearman_rho)  {
+    float *time_series_ranked, double *work, float *spearman_rho)  {
 
     double cov = 0, sigmai = 0, sigmaj = 0, meani = 0, meanj = 0;
     int zerocount = 0;
-    unsigned int T = (unsigned int) tmax;
-    double *rankedi = ALLOCA(T * sizeof(double)),
-           *rankedj = ALLOCA(T * sizeof(double)),
-           *normalizedi = ALLOCA(T * sizeof(double)),
-           *normalizedj = ALLOCA(T * sizeof(double));
+    // scratch space of shape (4, tmax), provided by the caller
+    double *rankedi = work,
+           *rankedj = work + tmax,
+           *normalizedi = work + 2*tmax,
+           *normalizedj = work + 3*tmax;
 
     for (int i=0; i<m; i++) {
         for (int j=i; j<m; j++) {
